@@ -609,11 +609,25 @@ def run(ctx):
             ctx.violation("rt%d" % idx, {"stream": "S-release-times", "case": rt_cases[idx],
                                           "implementation": impl["release_times"][idx], "model": mv,
                                           "what": "release times differ from the model of get_release_times"})
+        # the parameters the policy hands to numpy (1/rate; 1/coef, coef/rate)
+        cases = []
+        keep = []
+        for c, r in zip(rt_cases, impl["release_times"]):
+            if r["draws"]:
+                d = r["draws"][0]
+                exp = [0, d[3][0]] if d[0] == "poisson" else [0, d[3]]
+                cases.append((g_policy(c["policy"]), exp, c))
+                keep.append((c, r))
+        mism = ctx.model_stream("S-rng-request", HDR, "policy", "rng_request", cases)
+        for idx, mv in mism[:3]:
+            ctx.violation("rngreq%d" % idx, {"stream": "S-rng-request", "case": keep[idx][0], "implementation": keep[idx][1]["draws"][0][3],
+                                              "model": mv, "what": "distribution parameters requested from numpy differ from "
+                                                                   "(1/rate) / (1/coefficient, coefficient/rate)"})
     except core.ModelEvalError as e:
         ctx.broken.append({"kind": "correspondence", "name": "S-release-times", "detail": str(e)[-600:]})
 
     # ---------------- S-instantiate, S-closed-loop
-    n_inst = 700 if quick else 7000
+    n_inst = 600 if quick else 7000
     n_cl = 400 if quick else 4000
     inst_cases = [gen_inst_case(rng) for _ in range(n_inst)]
     cl_cases = [gen_cl_case(rng) for _ in range(n_cl)]
@@ -639,18 +653,29 @@ def run(ctx):
     ctx.cov["input_distribution"]["instantiate"] = shapes
     ctx.sample({"stream": "S-instantiate", "case": inst_cases[0], "impl": impl2["instantiate"][0]})
     try:
-        cases = [(g_inst_case(c, r), r["res"], c) for c, r in zip(inst_cases, impl2["instantiate"])]
-        mism = ctx.model_stream("S-instantiate", HDR, "inst_case", "inst_observe", cases, shard=100)
+        cases = [(g_inst_case(c, r), [r["res"], r["ct"]], c) for c, r in zip(inst_cases, impl2["instantiate"])]
+        mism = ctx.model_stream("S-instantiate", HDR, "inst_case", "(fun c => L [inst_observe c; ct_observe c])", cases, shard=50)
         for idx, mv in mism[:3]:
             ctx.violation("inst%d" % idx, {"stream": "S-instantiate", "case": inst_cases[idx],
-                                            "implementation": impl2["instantiate"][idx], "model": mv,
-                                            "what": "generated task graphs differ from the model's instantiation"})
-        cases = [(g_inst_case(c, r), r["ct"], c) for c, r in zip(inst_cases, impl2["instantiate"])]
-        mism = ctx.model_stream("S-completion-time", HDR, "inst_case", "ct_observe", cases, shard=100)
+                                            "implementation": impl2["instantiate"][idx], "model [task graphs, completion time]": mv,
+                                            "what": "generated task graphs / JobGraph.completion_time differ from the model's "
+                                                    "instantiation"})
+        # the interval requested from random.uniform for every deadline: completion_time*|variance|/100.0
+        cases = []
+        keep = []
+        for c, r in zip(inst_cases, impl2["instantiate"]):
+            if r["ct"][0] != 0 or not r["ct"][1] or not r.get("uniform_args"):
+                continue
+            var = c["variance"] if c["variance"] is not None else \
+                ([c["flags"]["minv"], c["flags"]["maxv"]] if c["flags"] is not None else [0, 0])
+            for a in r["uniform_args"][:2]:
+                cases.append(("(%s, %s, %s)" % (gz(r["ct"][1][0]), gz(var[0]), gz(var[1])), [0, a], c))
+                keep.append((c, a))
+        mism = ctx.model_stream("S-uniform-request", HDR, "Z * Z * Z", "uniform_request", cases)
         for idx, mv in mism[:3]:
-            ctx.violation("ct%d" % idx, {"stream": "S-completion-time", "case": inst_cases[idx],
-                                          "implementation": impl2["instantiate"][idx]["ct"], "model": mv,
-                                          "what": "JobGraph.completion_time differs from the model"})
+            ctx.violation("unireq%d" % idx, {"stream": "S-uniform-request", "case": keep[idx][0], "implementation": keep[idx][1],
+                                              "model": mv, "what": "the interval requested from random.uniform is not "
+                                                                   "[completion_time*|min_variance|/100, completion_time*|max_variance|/100]"})
     except core.ModelEvalError as e:
         ctx.broken.append({"kind": "correspondence", "name": "S-instantiate", "detail": str(e)[-600:]})
 
@@ -686,7 +711,7 @@ def run(ctx):
         ctx.broken.append({"kind": "correspondence", "name": "S-closed-loop", "detail": str(e)[-600:]})
 
     # ---------------- S-loader, S-worker-loader
-    n_ld = 500 if quick else 5000
+    n_ld = 400 if quick else 5000
     n_wl = 150 if quick else 1500
     ld_cases = []
     while len(ld_cases) < n_ld:
@@ -722,7 +747,7 @@ def run(ctx):
     ctx.sample({"stream": "S-loader", "doc": ld_cases[1]["doc"], "flags": ld_cases[1]["flags"]})
     try:
         cases = [(g_load_case(c, r), r["res"], c) for c, r in zip(ld_cases, impl3["loader"])]
-        mism = ctx.model_stream("S-loader", HDR, "load_case", "load_observe", cases, shard=60)
+        mism = ctx.model_stream("S-loader", HDR, "load_case", "load_observe", cases, shard=40)
         for idx, mv in mism[:3]:
             ctx.violation("load%d" % idx, {"stream": "S-loader", "document": ld_cases[idx]["doc"], "format": ld_cases[idx]["fmt"],
                                             "flags": ld_cases[idx]["flags"], "implementation": impl3["loader"][idx],
